@@ -85,7 +85,7 @@ def _strlist(draw, ctx, force_list=None):
     for i in range(n):
         if i:
             out.append(b",")
-        out.append(draw(string_token(ctx.hostile, allow_mls=False)))
+        out.append(draw(string_token(ctx.hostile)))
     out.append(b"]")
     return out
 
